@@ -15,6 +15,7 @@ import TantivyModel.Proofs.BlockCursorDrain
 import TantivyModel.Proofs.PositionReader
 import TantivyModel.Proofs.PositionsAfterSeeks
 import TantivyModel.Proofs.FieldSerializer
+import TantivyModel.Proofs.VInt32Source
 /-!
 # C07 — The inverted index records exactly the terms, documents, frequencies, positions
 
@@ -68,6 +69,27 @@ theorem C07_vint_u32_roundtrip (v : Nat) (hv : v < 2 ^ 32) (rest : List Nat) :
   intro b hb'
   have := VInt.enc_bytes_lt 128 (by omega) v b hb'
   omega
+
+/-- **`serialize_vint_u32`, the source text.**  `Gen.Postings.serialize_vint_u32_packed` is the
+mechanical translation (`extract/rs2lean.py`, `u32`/`u64` as bit vectors, `& | <<` as the bit-vector
+operations) of the function's `(res, num_bytes)` expression — the five-branch ladder with its masks
+and shifts as written in `common/src/vint.rs`.  For **every** `u32` the first `num_bytes`
+little-endian bytes of `res` are the bytes of the model's ladder, i.e. the VInt of the value, and
+`read_u32_vint` reads the value and the length back, whatever follows. -/
+theorem C07_vint_u32_source (val : BitVec 32) (rest : List Nat) :
+    VInt.packedBytes val = VInt.enc 128 val.toNat ∧
+    VInt.readU32 Gen.Postings.VINT_STOP_BIT Gen.Postings.VINT32_MAX_LEN (VInt.packedBytes val ++ rest) =
+      some (val.toNat, (VInt.packedBytes val).length) ∧
+    1 ≤ (VInt.packedBytes val).length ∧ (VInt.packedBytes val).length ≤ 5 := by
+  have h1 := VInt.packedBytes_eq_model val
+  have h2 := VInt.serializeU32_eq_enc val.toNat val.isLt
+  have he : VInt.packedBytes val = VInt.enc 128 val.toNat := by rw [h1]; exact h2
+  have h3 := C07_vint_u32_roundtrip val.toNat val.isLt rest
+  simp only at h3
+  have h1' : VInt.serializeU32 Gen.Postings.VINT32_LADDER Gen.Postings.VINT32_LAST_BYTES
+      Gen.Postings.VINT32_RADIX Gen.Postings.VINT32_STOP_BIT val.toNat = VInt.packedBytes val := h1.symm
+  rw [h1'] at h3
+  exact ⟨he, h3.1, h3.2.1, h3.2.2.1⟩
 
 /-- lists of VInts (the tail of a posting list, the tail of a position stream) -/
 theorem C07_vint_list_roundtrip (S : Nat) (hS : 2 ≤ S) (vs rest : List Nat) :
@@ -530,6 +552,7 @@ example : VInt.serializeU32 Gen.Postings.VINT32_LADDER Gen.Postings.VINT32_LAST_
     Gen.Postings.VINT32_RADIX Gen.Postings.VINT32_STOP_BIT 2097152 = [0, 0, 0, 129] ∧
     VInt.readU32 Gen.Postings.VINT_STOP_BIT Gen.Postings.VINT32_MAX_LEN [0, 0, 0, 129, 9] = some (2097152, 4) := by
   decide
+example : VInt.packedBytes 2097152#32 = [0, 0, 0, 129] ∧ VInt.packedBytes 300#32 = [44, 130] := by decide
 example : ValidList [0, 3, 4, 1000, 2147483646] [1, 2, 1, 300, 7] :=
   ⟨by decide, by decide, by decide, by decide⟩
 example : 0 < cfg.B ∧ 2 ≤ cfg.S ∧ cfg.B = 8 ^ 2 * 2 ∧ cfg.T = 2 ^ 31 - 1 := by decide
